@@ -15,10 +15,17 @@
 (* every pair of manager IDs up to MaxLen, every interleaving of create /  *)
 (* discover (add_server after restart) / remove_server of two managers,    *)
 (* and checks Isolation, Rediscover and RemoveExactlyOwned.                *)
+(*                                                                         *)
+(* Round 3: the client holds the list get_owned_*() returned (`held`) and  *)
+(* changes it (clear / extend with the other manager's list).  With a copy *)
+(* the bookkeeping is untouched; with Alias = TRUE the client's change IS a *)
+(* change of the bookkeeping and ListsEqualServer fails.                   *)
 (***************************************************************************)
 EXTENDS Naturals, Sequences, FiniteSets, TLC
 
-CONSTANTS Escape, MaxLen, Alphabet
+CONSTANTS Escape, MaxLen, Alphabet,
+          Alias     \* TRUE: get_owned_*() returns the bookkeeping list itself
+                    \* (regression variant); FALSE: a copy (the code)
 
 Ids == UNION {[1..n -> Alphabet] : n \in 1..MaxLen}
 
@@ -72,11 +79,22 @@ RemoveServer(m) == /\ server' = server \ owned[m]
                    /\ owned' = [owned EXCEPT ![m] = {}]
                    /\ UNCHANGED <<ids, crashed>>
 
+(* client-side change of a list that get_owned_*() handed out              *)
+ClientMutates(m) ==
+  /\ \E new \in {{}, owned[m] \cup owned[3 - m]} :
+        owned' = IF Alias THEN [owned EXCEPT ![m] = new] ELSE owned
+  /\ UNCHANGED <<ids, server, crashed>>
+
 Next == \E m \in 1..2 : Create(m) \/ Discover(m) \/ RemoveServer(m)
+                         \/ ClientMutates(m)
 Spec == Init /\ [][Next]_vars
 
 Isolation == \A m \in 1..2 : \A x \in owned[m] : x[1] = ids[m]
 AddServerTotal == ~crashed
+(* the lists equal what the manager created and did not remove (checked    *)
+(* for the literal-ID code shape; a crashed add_server leaves no list)     *)
+ListsEqualServer ==
+  Escape => \A m \in 1..2 : owned[m] = {x \in server : x[1] = ids[m]}
 RemoveExactlyOwned ==
   [][\A m \in 1..2 : (server' # server /\ owned'[m] = {} /\ owned[m] # {}) =>
         server \ server' \subseteq {x \in server : x[1] = ids[m]}]_vars
